@@ -582,7 +582,50 @@ func genServerSkel(repo string) (string, error) {
 				"["+strings.Join(u, "; ")+"]"))
 		}
 	}
-	fmt.Fprintf(&b, "Definition gen_endpoints_uses : list (string * list (string * bool)) :=\n  %s.\n", coqList(uses))
+	fmt.Fprintf(&b, "Definition gen_endpoints_uses : list (string * list (string * bool)) :=\n  %s.\n\n", coqList(uses))
+
+	// The kick: which methods of the displaced client does the goroutine
+	// started by upgrade call, and which methods of endpointClient end in an
+	// unconditional close of the websocket (a top-level statement
+	// c.conn.Close() of the method body)?
+	var kicks []string
+	if fd := p.funcDecl("Server", "upgrade"); fd != nil && fd.Body != nil {
+		ast.Inspect(fd.Body, func(n ast.Node) bool {
+			gs, ok := n.(*ast.GoStmt)
+			if !ok {
+				return true
+			}
+			fl, ok := gs.Call.Fun.(*ast.FuncLit)
+			if !ok {
+				kicks = append(kicks, coqStr("unknown "+p.src(gs.Call)))
+				return false
+			}
+			ast.Inspect(fl.Body, func(m ast.Node) bool {
+				if c, ok := m.(*ast.CallExpr); ok {
+					if se, ok := c.Fun.(*ast.SelectorExpr); ok {
+						if id, ok := se.X.(*ast.Ident); ok && id.Name == "old" {
+							kicks = append(kicks, coqStr("old."+se.Sel.Name))
+						}
+					}
+				}
+				return true
+			})
+			return false
+		})
+	}
+	fmt.Fprintf(&b, "Definition gen_kick_calls : list string :=\n  %s.\n\n", coqList(kicks))
+	var forcing []string
+	for _, fd := range p.allFuncs() {
+		if fd.Body == nil || recvName(fd) != "endpointClient" {
+			continue
+		}
+		for _, st := range fd.Body.List {
+			if es, ok := st.(*ast.ExprStmt); ok && p.src(es.X) == "c.conn.Close()" {
+				forcing = append(forcing, coqStr("old."+fd.Name.Name))
+			}
+		}
+	}
+	fmt.Fprintf(&b, "Definition gen_conn_closing_methods : list string :=\n  %s.\n", coqList(forcing))
 	return b.String(), nil
 }
 
